@@ -134,8 +134,9 @@ func checkC11(p *Prog, r *Report) {
 				if !ok {
 					return
 				}
-				switch calleeName(cc.Common()) {
-				case "io.WriteString", "(io.Writer).Write":
+				_, _, isWA := writeAllCall(cc.Common())
+				switch nm := calleeName(cc.Common()); {
+				case "io.WriteString" == nm, "(io.Writer).Write" == nm, isWA:
 					for _, a := range callArgs(cc.Common()) {
 						if nil != w && stripConv(a, false) == w {
 							wcall = cc
@@ -153,7 +154,7 @@ func checkC11(p *Prog, r *Report) {
 				for _, pr := range []struct {
 					what string
 					v    ssa.Value
-				}{{"write", errOf(wcall, 1)}, {"flush", fcall}} {
+				}{{"write", writeErrOf(wcall)}, {"flush", fcall}} {
 					if nil == pr.v {
 						rIn.Bad(c+":after-"+pr.what, posOf(rec), "the %s error is not available", pr.what)
 						okAll = false
@@ -202,7 +203,11 @@ func checkC11(p *Prog, r *Report) {
 				case "io.WriteString":
 					payload = wcall.Common().Args[1]
 				default:
-					payload = stripConv(wcall.Common().Args[0], true)
+					if _, pl, isWA := writeAllCall(wcall.Common()); isWA {
+						payload = pl
+					} else {
+						payload = stripConv(wcall.Common().Args[0], true)
+					}
 				}
 				if d := slogAttr(rec, lkData); nil != d && d == payload {
 					rIn.OK(c+":data", posOf(rec), "data is the string that was written")
